@@ -127,8 +127,9 @@ def discover():
 
 def select(hs, prop, tier):
     out = []
+    skip = set((os.environ.get("VERIF_SKIP") or "").split(","))
     for h in hs:
-        if prop not in h.props:
+        if prop not in h.props or h.name in skip:
             continue
         if tier == "quick" and h.tier != "quick":
             continue
